@@ -382,10 +382,11 @@ fn unknown_type(rng: &mut R, sec: char) -> u8 {
 /// key data of a proprietary key that no section routes to a dedicated field
 fn foreign_fc(rng: &mut R, sec: char) -> Vec<u8> {
     let kd = pd::rb(rng, 0, 4);
+    let sub_any = |rng: &mut R| -> u8 { if rng.gen_bool(0.3) { [0xfcu8, 0xfd, 0xfe, 0xff, 0][rng.gen_range(0..5)] } else { rng.gen() } };
     match rng.gen_range(0..8) {
-        0 => fc(b"", rng.gen(), &kd),
-        1 => fc(b"b", rng.gen(), &kd),
-        2 => fc(b"aa", rng.gen(), &kd),
+        0 => fc(b"", sub_any(rng), &kd),
+        1 => fc(b"b", sub_any(rng), &kd),
+        2 => fc(b"aa", sub_any(rng), &kd),
         3 => {
             // "pset" with a subtype that the section does not assign
             let sub = match sec { 'g' => rng.gen_range(2..=255u8), 'i' => rng.gen_range(0x16..=255u8), _ => if rng.gen_bool(0.3) { 0 } else { rng.gen_range(0x0b..=255u8) } };
